@@ -1,11 +1,16 @@
 #!/bin/sh
-# Run the repository's own 16-test suite on a scratch copy of /repo (optionally with a
-# patch applied), never in /repo itself.  usage: run_suite.sh [patch.diff ...]
+# Run the repository's own 16-test suite on a scratch copy of /repo (optionally with patches applied),
+# never in /repo itself.  usage: run_suite.sh [patch.diff ...]
+# libtool's test wrappers hard-code LD_LIBRARY_PATH=/repo/.libs; they are re-pointed at the copy so that the
+# tests really execute the library built from the (patched) copy.
 set -e
 D=$(mktemp -d /tmp/isal-suite-XXXXXX)
 trap 'rm -rf "$D"' EXIT
 rsync -a --exclude .git /repo/ "$D/"
 cd "$D"
 for p in "$@"; do patch -p1 -s < "$p"; done
-make -j16 check > "$D/log.txt" 2>&1 || { tail -40 "$D/log.txt"; echo SUITE-FAILED; exit 1; }
+grep -rlI --include='*_test' 'LD_LIBRARY_PATH="/repo/.libs' . 2>/dev/null | xargs -r sed -i "s#LD_LIBRARY_PATH=\"/repo/.libs#LD_LIBRARY_PATH=\"$D/.libs#"
+make -j16 check > "$D/log.txt" 2>&1 || { grep -E "^(FAIL|ERROR|PASS):" "$D/log.txt" | sort | uniq -c | sort -rn | head -20; tail -15 "$D/log.txt"; echo SUITE-FAILED; exit 1; }
+# prove the tests ran against the copy's library
+if ! grep -q "$D/.libs" crc/crc16_t10dif_test; then echo "wrapper not re-pointed"; exit 2; fi
 grep -E "^# (TOTAL|PASS|FAIL|ERROR)" "$D/log.txt" | tr '\n' ' '; echo
